@@ -57,6 +57,11 @@ def cases(tier, variants):
         for r in (1, 2, 3):
             for sp in itertools.combinations((0, 1, 2, 4, 7), r):
                 yield dict(b, part="chain", splits=list(sp))
+    # the same chains under a finite-difference gradient (nfev != njev there)
+    for b in H.base_runs(variants, maxcors=(3,), small=True):
+        for r in (1, 2):
+            for sp in itertools.combinations((0, 1, 3, 5), r):
+                yield dict(b, part="chain", splits=list(sp), fd="2-point")
 
 
 def coherent(st, obs, s, what, callable_jac):
@@ -84,7 +89,14 @@ def run(case):
     part = case["part"]
     viol = []
     if part == "env":
-        res, its, env, kw = E.env_run(case)
+        try:
+            res, its, env, kw = E.env_run(case)
+        except np.linalg.LinAlgError:
+            # a lying environment can hand over pairs whose middle matrix is numerically
+            # indefinite: the factorisation fails.  Not this property's business (DESIGN.md
+            # section 1, Exceptions): counted in the evidence, not judged.
+            return dict(viol=[], outcome="LinAlgError_in_lying_environment",
+                        stats={"env_linalg_error": 1})
         xb = np.asarray(res.x, float).tobytes()
         if res.nfev != env.nf:
             viol.append(V("nfev_differs_from_calls", nfev=int(res.nfev), calls=env.nf))
@@ -110,9 +122,29 @@ def run(case):
         for k in case["splits"] + [case["splits"][-1] + 2]:
             nf0, ng0 = obs.nf, obs.ng
             n0 = (int(ck.nfev), int(ck.njev)) if ck is not None else (0, 0)
+            fd = case.get("fd")
             r = H.solve(p, case, k, checkpoint=copy.deepcopy(ck) if ck is not None else None,
-                        fun=obs.fun, jac=obs.jac)
+                        fun=obs.fun, jac=(fd or obs.jac))
             links += 1
+            if fd:
+                if r.nfev != n0[0] + (obs.nf - nf0):
+                    viol.append(V("counters_do_not_continue_over_restart", link=links,
+                                  nfev=int(r.nfev), ck_nfev=n0[0], calls=obs.nf - nf0))
+                # number of gradient computations: differential against the uninterrupted
+                # run stopped at the same iteration (same iterate => same history)
+                u = H.solve(p, case, k, jac=fd)
+                if H.relerr(u.x, r.x) <= 1e-8 and u.nit == r.nit and \
+                        (u.njev != r.njev or u.nfev != r.nfev):
+                    viol.append(V("counters_differ_from_uninterrupted_run", link=links,
+                                  nfev=int(r.nfev), njev=int(r.njev), u_nfev=int(u.nfev),
+                                  u_njev=int(u.njev)))
+                xb = np.asarray(r.x, float).tobytes()
+                if r.njev >= 1 and xb in obs.flog and float(r.fun) != obs.flog[xb]:
+                    viol.append(V("result_fun_not_the_value_at_x", link=links))
+                ck = r
+                if not H.stopped_by_maxiter(r, k):
+                    break
+                continue
             if r.nfev != n0[0] + (obs.nf - nf0) or r.njev != n0[1] + (obs.ng - ng0):
                 viol.append(V("counters_do_not_continue_over_restart", link=links,
                               nfev=int(r.nfev), ck_nfev=n0[0], calls=obs.nf - nf0,
